@@ -466,14 +466,21 @@ fn copy_range_into_slice_inner<T: Clone>(
         }
     } else {
         // Iterate over views of outermost dimension and recurse.
+        //
+        // Each iteration fills the part of `dest` that holds the elements
+        // selected by the inner ranges, which can be fewer than `src_slice.len()`.
+        let inner_len: usize = ranges[1..].iter().map(|r| r.steps()).product();
         for i0 in ranges[0] {
             let src_slice = src.slice(i0);
-            let (dest_slice, dest_tail) = dest.split_at_mut(src_slice.len());
+            let (dest_slice, dest_tail) = dest.split_at_mut(inner_len);
 
             copy_range_into_slice_inner(src_slice, dest_slice, &ranges[1..]);
 
             dest = dest_tail;
         }
+
+        // Check output length is correct.
+        assert!(dest.is_empty(), "output too long");
     }
 }
 
